@@ -200,7 +200,50 @@ class C01(Prop):
                     if len(gs) == 1 and fl == 0:
                         lines.append(case_line(f'd{n}', shape(('choicet', gs)), inp2, kind=kind))
                     n += 1
+        # the InputRef conveniences a hand-written `custom` parser is built from: `next_maybe` / `peek_maybe` / `span_since`
+        # (harness-only `!ze…` = the model's `cnext`), `InputRef::parse` / `InputRef::check` around an ordinary parser
+        # (`!za…` / `!zb…`: same acceptance, same output, same consumption as the parser itself)
+        inp3 = inputs_all(3, [97, 98, 233])
+        subs = [('just', [97]), ('just', [97, 98]), ('ornot', ('just', [97])), ('collect', 'vec', ('rep', ('just', [97]), 1, None)),
+                ('or', ('just', [97, 98]), ('just', [97])), ('then', ('any',), ('just', [98])), ('andis', ('any',), ('just', [97])),
+                ('validate', 'always', 5, 1, ('any',)), ('recvia', ('just', [97]), ('to', ('vnat', 9), ('any',)))]
+        for si, p_ in enumerate(subs):
+            kind = 'str' if si % 2 == 0 else 'slice'
+            lines.append(case_line(f'za{n}', ('then', p_, rest), inp3, kind=kind))
+            lines.append(case_line(f'!za{n}', ('then', ('cparse', p_), rest), inp3, kind=kind))
+            lines.append(case_line(f'zb{n}', ('then', ('ignored', p_), rest), inp3, kind=kind))
+            lines.append(case_line(f'!zb{n}', ('then', ('ccheck', p_), rest), inp3, kind=kind))
+            n += 1
+        for shape in (lambda c: ('then', c, rest), lambda c: ('collect', 'vec', ('rep', c, 0, 2)), lambda c: ('or', ('then', c, ('just', [98])), c)):
+            kind = 'str' if n % 2 == 0 else 'slice'
+            lines.append(case_line(f'ze{n}', shape(('cnext', 3)), inp3, kind=kind))
+            lines.append(case_line(f'!ze{n}', shape(('cnextmaybe', 3)), inp3, kind=kind))
+            n += 1
         return lines
+
+    def group_of(self, line):
+        return line.split(' ', 1)[0].lstrip('!')
+
+    def check_chunk(self, by_id, impl, model, stats, fails):
+        super().check_chunk(by_id, impl, model, stats, fails)
+        for key, io in impl.items():
+            if not key.startswith('!'):
+                continue
+            cid, _, k = key.rpartition('.')
+            a, b = io.get('M'), impl.get(key[1:], {}).get('M')
+            stats['pairs'] += 1
+            stats['nontrivial'] += 1
+            if a is None or b is None:
+                fails.append(('missing', by_id.get(cid), int(k), 'no implementation observation (crash / hang?)'))
+                continue
+            pa, pb = parse_M(a), parse_M(b)
+            # `ze`: everything; `za` / `zb`: acceptance and output (the errors of `InputRef::parse` are re-recorded by `custom`)
+            same = (a == b) if cid.startswith('!ze') else (proj_accept_value(pa) == proj_accept_value(pb) or
+                                                            (pa['kind'] == pb['kind'] == 'R' and pa['out'] is None and pb['out'] is None))
+            if not same:
+                stats['pred_fail'] += 1
+                self.fail(stats, fails, 'pred', [(by_id.get(cid), int(k)), (by_id.get(cid[1:]), int(k))], int(k),
+                          f'INPUTREF-API: written with the InputRef conveniences: {a} || the plain parser: {b}')
 
     def compare(self, line, k, impl_M, model_M, spec_S):
         i = proj_accept_value(parse_M(impl_M))
